@@ -56,6 +56,8 @@ class C01Checker(Checker):
         if ev["op"] == "query" and w.fam in CMS:
             live = (unhex(ev["key"]), int(info["res"]))
             w.probes["live_query_events"] += 1
+        totals = None
+        wild = 0
         for ident in w.universe:
             est = int(sk.query(ident))
             alias = int(sk[ident])
@@ -69,15 +71,15 @@ class C01Checker(Checker):
             cells = w.owner_cells(ident)
             if cells is False:
                 continue
+            if totals is None:
+                totals, wild = w.cell_totals(truth)
             best = None
             exact_row = False
-            for r, row in enumerate(w.sharers(ident)):
-                tot = 0
-                for other in row:
-                    tot += truth.get(other, 0)
+            for r, col in enumerate(cells):
+                tot = totals[r].get(col, 0) + wild
                 if best is None or tot < best:
                     best = tot
-                if len(row) == 1:
+                if tot == t:
                     exact_row = True
             bound = min(best, U32MAX)
             if est > bound:
@@ -319,14 +321,14 @@ class HHChecker(Checker):
             return
         teff = self.t_eff(sk)
         e = w.n_events
+        totals, wild = w.cell_totals(truth)
         for ident, f in truth.items():
             if f <= 0:
                 continue
             B = None
-            for row in w.sharers(ident):
-                W = 0
-                for o in row:
-                    W += truth.get(o, 0)
+            cells = w.owner_cells(ident)
+            for r in range(w.cfg["depth"]):
+                W = (N if cells is False else totals[r].get(cells[r], 0) + wild)
                 b = 2 * f - W
                 if B is None or b > B:
                     B = b
@@ -1284,18 +1286,15 @@ class C18Checker(Checker):
         else:
             if n.unknown:
                 return
+            totals = None
             for u in w.universe:
                 f = n.truth.get(u, 0)
                 if f <= 0:
                     continue
-                alone = True
-                for row in w.sharers(u):
-                    for o in row:
-                        if o != u and n.truth.get(o, 0) > 0:
-                            alone = False
-                            break
-                    if not alone:
-                        break
+                if totals is None:
+                    totals, wild = w.cell_totals(n.truth)
+                cells = w.owner_cells(u)
+                alone = cells is not False and wild == 0 and all(totals[r].get(cells[r], 0) == f for r in range(w.cfg["depth"]))
                 if not alone:
                     continue
                 c = int(sk[u])
